@@ -144,7 +144,8 @@ TLC_JAVA_OPTS = "-Xss1g -XX:+UseParallelGC"
 
 
 def tlc_cmd(workers, cfg, module, metadir, extra=()):
-    return ["tlc", "-workers", str(workers), "-metadir", metadir, "-cleanup", "-noGenerateSpecTE",
+    # -maxSetSize: inputs of more than 10^6 elements are enumerated as index sets by the specification
+    return ["tlc", "-workers", str(workers), "-metadir", metadir, "-cleanup", "-noGenerateSpecTE", "-maxSetSize", "100000000",
             "-config", cfg] + list(extra) + [module]
 
 
